@@ -34,13 +34,14 @@ def c3(ctx):
 def c4(ctx):
     f = ctx.p.func(GROUP + ".attach_tail")
     records.rebuild_site(ctx, f, "simfile.notes.group.NoteWithTail", 1, "head", {"tail_beat": "tail.beat"}, "joined head")
+    notes.attach_tail_rule(ctx)
 
 
 def sweep(ctx):
     """thorough: option forwarding over the whole package; every enum comparison is a judged chain or recorded."""
     fwd.fwd_options(ctx, list(fwd.OPTIONS), floor=30)
     records.enum_census(ctx, {("simfile.notes.group:group_notes.join_head_to_tail", "orphaned_tail"), ("simfile.notes.group:group_notes.join_head_to_tail", "orphaned_head"),
-                                ("simfile.notes.group:group_notes.add_row", "same_beat_notes"), ("simfile.notes.group:ungroup_notes.check_orphan", "orphaned_notes"),
+                                ("simfile.notes.group:group_notes.add_row", "same_beat_notes"), ("simfile.notes.group:ungroup_notes", "orphaned_notes"),
                                 ("simfile.notes.timed:time_notes", "unhittable_notes"), ("simfile.convert:_should_copy_property", "behavior")})
 
 
